@@ -1,4 +1,5 @@
 import CollectionsC.Properties.C02
+import CollectionsC.Proofs.HashSetLedger
 /-! # C08 (hash part) — a refused allocation is atomic
 
 `cc_hashtable_add` may complete one or more resizes and only then be refused the entry block (or
@@ -45,6 +46,86 @@ theorem continue_after_failed_add (c : HCfg) (t : HashTable) (k : Key) (v : Nat)
   obtain ⟨r1, r2, _⟩ := C02.history_refines c ops t' m' t.abs b5 hl' b2
   exact ⟨r1, r2⟩
 
+/-- **refused_iff**: a call reports `CC_ERR_ALLOC` exactly when a refusal fired during it (for every
+operation of the API and every schedule; no invariant needed) -/
+theorem refused_iff (c : HCfg) (t : HashTable) (op : Op) (m : Mem) :
+    (t.step c op m).1.st = some .errAlloc ↔ (t.step c op m).2.2.nrefused = m.nrefused + 1 := by
+  rcases HashTable.step_nrefused c t op m with ⟨a, b⟩ | ⟨a, b⟩
+  · exact ⟨fun _ => b, fun _ => a⟩
+  · exact ⟨fun x => absurd x a, fun x => by omega⟩
+
+/-- a call that does not report `CC_ERR_ALLOC` saw no refusal -/
+theorem not_refused (c : HCfg) (t : HashTable) (op : Op) (m : Mem) (h : (t.step c op m).1.st ≠ some .errAlloc) :
+    (t.step c op m).2.2.nrefused = m.nrefused := by
+  rcases HashTable.step_nrefused c t op m with ⟨a, _⟩ | ⟨_, b⟩
+  · exact absurd a h
+  · exact b
+
+/-- **atomic**, per step of the API: after a failed call the map, the size and the ledger are what
+they were, the invariant holds, nothing faulted (only `add` can fail; a failed `add` may have grown
+the bucket array, which is why atomicity is on `abs` and not on the physical state) -/
+theorem atomic (c : HCfg) (t : HashTable) (op : Op) (m : Mem) (h : t.Inv c) (hl : t.size + 2 ≤ m.live)
+    (hf : (t.step c op m).1.st = some .errAlloc) :
+    (t.step c op m).2.1.abs.Perm t.abs ∧ (t.step c op m).2.1.size = t.size ∧
+    (t.step c op m).2.2.live = m.live ∧ (t.step c op m).2.1.Inv c ∧ (t.step c op m).2.2.fault = m.fault := by
+  cases op with
+  | add k v =>
+    simp only [HashTable.step] at hf ⊢
+    have hne : (t.add c k v m).1 ≠ .ok := by
+      intro hok; rw [hok] at hf; simp at hf
+    obtain ⟨_, b2, b3, b4, b5, b6⟩ := add_atomic c t k v m h hne
+    exact ⟨b2, b3, b4, b5, b6⟩
+  | get k => rcases HashTable.step_nrefused c t (.get k) m with ⟨_, b⟩ | ⟨a, _⟩
+             · have := (HashTable.get_refines c t k m h).2.1
+               simp only [HashTable.step] at hf; rw [this] at hf; split at hf <;> simp at hf
+             · exact absurd hf a
+  | containsKey k => simp [HashTable.step] at hf
+  | remove k =>
+    have := (HashTable.remove_spec c t k m h (by omega)).2.2.2.1
+    simp only [HashTable.step] at hf; rw [this] at hf; split at hf <;> simp at hf
+  | removeAll => simp [HashTable.step] at hf
+
+/-- the constructor reports `CC_ERR_ALLOC` exactly when one of its two requests was refused -/
+theorem new_refused_iff (c : HCfg) (cap : Nat) (m : Mem) :
+    (HashTable.new c cap m).1 = .errAlloc ↔ (m.alloc.1 = false ∨ m.alloc.2.alloc.1 = false) := by
+  unfold HashTable.new; simp only
+  cases h1 : m.alloc.1 <;> cases h2 : m.alloc.2.alloc.1 <;> simp
+
+/-- **continue**: after a failed insertion, any further history produces the same outputs and ends in
+the same map as the same history run on the table as it was before the failed call (from any
+ledger), provided the same later insertions are refused in both runs — the failed call might as
+well never have happened -/
+theorem continue_ (c : HCfg) (t : HashTable) (k : Key) (v : Nat) (m mA : Mem) (ops : List Op)
+    (h : t.Inv c) (hl : t.size + 2 ≤ m.live) (hlA : t.size + 2 ≤ mA.live) (hfail : (t.add c k v m).1 ≠ .ok)
+    (hsame : ((t.add c k v m).2.1.run c ops (t.add c k v m).2.2).2.1 = (t.run c ops mA).2.1) :
+    ((t.add c k v m).2.1.run c ops (t.add c k v m).2.2).1 = (t.run c ops mA).1 ∧
+    ((t.add c k v m).2.1.run c ops (t.add c k v m).2.2).2.2.1.abs.Perm (t.run c ops mA).2.2.1.abs := by
+  obtain ⟨r1, r2⟩ := continue_after_failed_add c t k v m ops h hl hfail
+  obtain ⟨q1, q2, _⟩ := C02.history_refines c ops t mA t.abs h hlA (List.Perm.refl _)
+  rw [hsame] at r1 r2
+  exact ⟨by rw [r1, q1], r2.trans q2.symm⟩
+
+/-- the same on the ideal map: a refused insertion in the middle of a history changes neither the
+final map nor any other output -/
+theorem spec_continue (sp : Map) (ops₁ ops₂ : List Op) (k : Key) (v : Nat) (st : Stat)
+    (fs₁ fs₂ : List (Option Stat)) (hlen : fs₁.length = ops₁.length) :
+    (Map.run sp (ops₁ ++ Op.add k v :: ops₂) (fs₁ ++ some st :: fs₂)).2 = (Map.run sp (ops₁ ++ ops₂) (fs₁ ++ fs₂)).2 ∧
+    ∃ o₁ o₂, (Map.run sp (ops₁ ++ Op.add k v :: ops₂) (fs₁ ++ some st :: fs₂)).1 = o₁ ++ ⟨some st, none⟩ :: o₂ ∧
+      (Map.run sp (ops₁ ++ ops₂) (fs₁ ++ fs₂)).1 = o₁ ++ o₂ := by
+  induction ops₁ generalizing sp fs₁ with
+  | nil =>
+    cases fs₁ with
+    | nil => exact ⟨rfl, [], _, rfl, rfl⟩
+    | cons _ _ => simp at hlen
+  | cons op ops₁ ih =>
+    cases fs₁ with
+    | nil => simp at hlen
+    | cons f fs₁ =>
+      simp only [List.length_cons, Nat.add_right_cancel_iff] at hlen
+      obtain ⟨i1, o₁, o₂, i2, i3⟩ := ih (Map.step sp op f).2 fs₁ hlen
+      simp only [List.cons_append, Map.run, List.headD_cons, List.tail_cons]
+      exact ⟨i1, (Map.step sp op f).1 :: o₁, o₂, by rw [i2]; rfl, by rw [i3]; rfl⟩
+
 /-- a refused constructor yields no object and leaves the ledger as it was -/
 theorem new_atomic (c : HCfg) (cap : Nat) (m : Mem) (hfail : (HashTable.new c cap m).1 ≠ .ok) :
     (HashTable.new c cap m).1 = .errAlloc ∧ (HashTable.new c cap m).2.1 = none ∧
@@ -85,6 +166,13 @@ theorem set_atomic (c : HCfg) (cap : Nat) (s : HashSet) (e : Key) (m : Mem) (h :
   obtain ⟨_, n2, _⟩ := HashSet.new_spec c cap m
   obtain ⟨a1, _, a3, _⟩ := HashSet.add_spec c s e m h
   exact ⟨n2, fun hne => ⟨(a3 hne).1, (a3 hne).2.1, (a3 hne).2.2.1, (a3 hne).2.2.2, a1⟩⟩
+
+/-- hash set: `CC_ERR_ALLOC` exactly when a refusal fired -/
+theorem set_refused_iff (c : HCfg) (s : HashSet) (op : Set.Op) (m : Mem) :
+    (s.step c op m).1.st = some .errAlloc ↔ (s.step c op m).2.2.nrefused = m.nrefused + 1 := by
+  rcases HashSet.step_nrefused c s op m with ⟨a, b⟩ | ⟨a, b⟩
+  · exact ⟨fun _ => b, fun _ => a⟩
+  · exact ⟨fun x => absurd x a, fun x => by omega⟩
 
 /-- non-vacuity: capacity 1, threshold 0 at capacities 1 and 2 — the insertion resizes twice and is
 then refused the entry (third allocation): status `CC_ERR_ALLOC`, empty map, capacity 4, ledger unchanged -/
